@@ -29,7 +29,7 @@ type driverResult struct {
 func driverRun(t *testing.T, store int, dir, side string, delta []byte, tick bool) (driverResult, error) {
 	target := storeName(store)
 	spec := DriverSpec{Store: store, Dir: dir, Target: target, DeltaFile: filepath.Join(side, "delta.bin"),
-		StateOut: filepath.Join(side, "state.bin"), Tick: tick}
+		StateOut: filepath.Join(side, "state.bin"), Tick: tick, Bare: straceCwd != ""}
 	sb, _ := json.Marshal(spec)
 	specPath, logPath := filepath.Join(side, "spec.json"), filepath.Join(side, "strace.log")
 	if err := os.WriteFile(spec.DeltaFile, delta, 0o644); err != nil {
